@@ -441,6 +441,10 @@ package getoptions
 //@   props C19
 //@   requires parse.gopt: gopt != nil && gopt.programTree != nil && TreeOK() && UnkOK()
 //@   atcall parseCLIArgs mode.root {C07}: $arg0 == "" ==> $arg1 == gopt.programTree && $arg3 == gopt.programTree.mode
+//@   atcall parseCLIArgs comp.words {C17}: $arg0 != "" ==> $arg1 == gopt.programTree
+//@     && wscount(getenv("COMP_LINE")) - 1 <= len($arg2) && len($arg2) <= wscount(getenv("COMP_LINE"))
+//@     && (len($arg2) < wscount(getenv("COMP_LINE")) ==> wsword(getenv("COMP_LINE"), wscount(getenv("COMP_LINE")) - 1) == "")
+//@     && (forall i int :: 0 <= i && i < len($arg2) ==> $arg2[i] == wsword(getenv("COMP_LINE"), i))
 //@   modifies gopt.finalNode, programTree.ChildText, programTree.UnknownOptions, option.Option.Called, option.Option.UsedAlias, option.Option.MapKeysToLower,
 //@     cell(bool), cell(string), cell(int), cell(float64), cell([]string), cell([]int), cell([]float64), allmaps(map[string]string),
 //@     $out, $compout, $out_other, $exits, $exitcode
